@@ -374,4 +374,18 @@ PROPS['C12'].update({
     'level_note': 'str/csv/codec builtins are not axiomatised; no unbounded claim is made for the round-trip clauses.',
 })
 
+PROPS['C15'].update({
+    'units': ['lemma.perm_col', 'lemma.dup_col', 'lemma.full_col', 'matrices.prime', 'matrices.double', 'matrices.doubleprime', 'matrices._pair_with',
+              'matrices.Relation.__new__', 'lindig.neighbors', 'lindig.lattice', 'fcbo.fast_generate_from', 'fcbo.fcbo_dual', 'members.join', 'members.meet',
+              'junctors.RelationMeta.__call__', 'definitions.transposed'] + GALOIS,
+    'level': 'other',
+    'proved_part': 'a lemma over the contracts: the code computes the spec functions (units of C01/C03/C05/C07/C16, one closure text for both directions = duality), and the spec functions '
+                   'are invariant: column permutation leaves the closure on object sets unchanged and relabels intents (L-PERM; rows by duality), a duplicated or universal column leaves '
+                   'the closure unchanged (L-DUP-COL, L-FULL-COL; duplicated row by duality), Definition.transposed swaps the axes',
+    'bounded_part': 'the label-level relational statement itself (concept sets, covers, joins/meets, relations of the original vs. the permuted / transposed / extended context)',
+    'technique': 'contract-based: spec-level invariance lemmas proved by z3 over two related tables + the code-equals-spec contracts of the other properties; bounded relational run-time check',
+    'level_text': 'Invariance of the spec functions proved; the statement about two real contexts is a corollary of the per-function contracts and is additionally checked on the bounded scope.',
+    'level_note': 'The corollary step (same spec functions => same label-level lattice) is not a machine-checked obligation; rows handled by duality of the symmetric theory.',
+})
+
 NOT_APPLICABLE = {}
